@@ -23,6 +23,7 @@ class Ctx:
         self.fn_seen = set()
         self.cur = None
         self.no_evidence = False
+        self.extra = {}
         self.decided_keys = set()
         self.skipped_keys = set()
         self.freeze = False
@@ -223,9 +224,10 @@ def finish(ctx, level_text, assumptions):
                              "frozen tables under /verif/tables and in crabcheck/props"],
         },
         "assumptions": assumptions,
-        "wall_s": round(wall, 2),
+        "wall_s": round(time.time() - ctx.t0, 2),
         "violations": len(uniq),
     }
+    ev["coverage"].update(ctx.extra)
     evdir = os.path.join(VERIF, "evidence")
     if not ctx.no_evidence:
         os.makedirs(evdir, exist_ok=True)
